@@ -212,7 +212,11 @@ class ThreadSched:
             return self.end_reason
         self.cur = first
         first.sem.release()
-        self.ctrl.acquire()
+        # wall-clock watchdog: a thread blocked on something the scheduler does
+        # not own (a real lock, a real socket) would otherwise hang the check
+        if not self.ctrl.acquire(timeout=120):
+            self.end_reason = "hang"
+            self.fatal = "execution did not reach a terminal state within 120 s of wall-clock time (a thread is blocked outside the virtual environment?)"
         return self.end_reason
 
     def _pick_initial(self):
@@ -223,13 +227,16 @@ class ThreadSched:
 
     def teardown(self):
         self.aborting = True
+        stuck = []
         for t in self.threads:
             if t.thread is not None and t.thread.is_alive():
                 t.sem.release()
-                t.thread.join(10)
+                t.thread.join(10 if self.end_reason != "hang" else 1)
                 if t.thread.is_alive():
-                    raise RuntimeError(f"virtual thread {t.name} did not unwind")
+                    stuck.append(t.name)
         gc.enable()
+        if stuck and self.end_reason != "hang":
+            raise RuntimeError(f"virtual threads {stuck} did not unwind")
 
     def _finish(self, reason):
         self.end_reason = reason
